@@ -431,6 +431,18 @@ Theorem C09_walk_backward_exact_dir_codec :
   walk_backward E (as_server_dir cursor E cursor_ltb cur cursor_encode_f (cursor_decode k) d a) n (Datatypes.S (length S)) None = Done S.
 Proof. exact (fun E cur k a edges S d Happ Hcur Hd n Hn => walk_backward_dir_codec E cur k a edges S Happ Hcur d n Hd Hn). Qed.
 
+(** ** Stage B: TimeBasedConnection's ResolveEdges (the generic-Connection side of it; which range
+    queries it asks belongs to C16).  [time_resolve_edges answers] transcribes how it collects the
+    EdgeGetter's answers — slices appended as they come, promises joined, the continuation appending
+    to the same slice.  Whatever mixture of direct answers and promises the getter uses, what is
+    handed to the Connection machinery is a permutation of the concatenation of all answers:
+    nothing dropped, nothing twice (so [app_window_ok] is met whenever the answers together contain
+    the needed window, and every theorem above applies). *)
+Theorem C09_time_resolve_edges_delivers : forall (E : Type) (answers : list (result (later (list E)))) (ls : list (list E)),
+  Forall2 (delivers E) answers ls ->
+  exists L, delivers E (time_resolve_edges E answers) L /\ Permutation L (concat ls).
+Proof. exact time_resolve_edges_delivers. Qed.
+
 (** ** Stage B: promises, composed with the executor model of C02 and the idle handler of C15.
     RelayModel treats a promise as "will deliver a value or an error"; goroutines and the
     IdleHandler are outside it.  What it needs from them — a resolver answering through a promise
@@ -502,3 +514,4 @@ Print Assumptions C09_promise_composes_with_executor.
 Print Assumptions C09_cost_bounds_page.
 Print Assumptions C09_walk_forward_exact_dir_codec.
 Print Assumptions C09_walk_backward_exact_dir_codec.
+Print Assumptions C09_time_resolve_edges_delivers.
